@@ -9,6 +9,7 @@ use serde_json::{json, Value};
 use crate::util::*;
 
 fn front(text: &str, which: &str) -> Value {
+    let _wd = crate::conn::watched(&format!("generator front-end {}", which), &[text.as_bytes().to_vec()]);
     let r = catch_unwind(AssertUnwindSafe(|| -> Result<String, String> {
         match which {
             "generate" | "generate_tosource" => {
